@@ -151,7 +151,13 @@ class C15(Prop):
             "(contents of any class -> any class, rates changed) and generates again, with the same Hamiltonian object or a new "
             "one around the same buffers; every point of the history is judged by the dense oracle, the last one also by the "
             "model tie; a further generation after the judged one must not change it; malformed stream: labels missing from a dictionary and ket/bra identifier collisions (both sides "
-            "must raise the same exception). non-trivial = at least one term generated; distinct by case content")
+            "must raise the same exception). dense construction: besides the all-tuple list [(sqrt gamma_k, L_k)] every well-formed case "
+            "(and every history point) also hands exact_lindbladian the same operators and rates as a list in a random "
+            "documented entry format per operator (tuple (c, L), (-c, L), split (c/a, a L), bare array c L / L itself when "
+            "gamma = 1; all-tuple, all-bare or mixed lists, C or Fortran layout) in a random order; it is judged against the "
+            "same GKSL matrix and the caller's list must stay unchanged. large members (3 per quick run, 24 thorough): 1..6 "
+            "sites of dimension 1..5 with total dimension 9..16 (thorough: some 17..32), 2..10 Hamiltonian terms, 2..8 jump "
+            "operators, same tie and oracle. non-trivial = at least one term generated; distinct by case content")
     clauses = [
         ("F", "GKSL form: for the model with bug_sign=false, all Hamiltonians, any number of jump operators on any sites "
               "(distinct identifiers per tensor product), any sound classifier flags, rational prefactors, symbolic rates: the "
@@ -173,7 +179,8 @@ class C15(Prop):
         ("O", "Hermiticity and trace preservation of expm(-i t L): validated numerically with scipy expm on random density "
               "matrices (proved part: trace annihilation by the generator)"),
         ("V", "the dense matrix of the generated terms (ket sites then bra sites, Kronecker order) equals the GKSL matrix of the "
-              "property text; exact_lindbladian equals it too (both: differential oracle, numpy); also at every point of a "
+              "property text; exact_lindbladian equals it too, for the all-tuple list and for a list in mixed documented entry "
+              "formats (bare arrays and (coefficient, array) tuples) in a permuted order (all: differential oracle, numpy); also at every point of a "
               "caller history with operator arrays / mappings refilled in place between the generations (the model is a "
               "function of the current contents only: state kept by the library between calls is outside the theorems)"),
     ]
@@ -201,6 +208,13 @@ class C15(Prop):
             cases.append(self._gen_case(rng, malformed=False))
         for k in range(max(6, n // 10)):
             cases.append(self._gen_case(rng, malformed=True))
+        # a few LARGE members: 1..6 sites, site dimensions up to 5, total dimension up to 16 (thorough: some up to 32),
+        # up to 10 Hamiltonian terms and up to 8 jump operators
+        nlarge = ctx.scale(3, 24) * budget_scale
+        for k in range(nlarge):
+            # spread over the list: at most one large member per model shard (shards are evaluated in parallel)
+            cases.insert(min(len(cases), 5 * k + 2),
+                         self._gen_case(rng, malformed=False, large=(32 if (ctx.scale(0, 1) and k % 6 == 5) else 16)))
         return cases
 
     @staticmethod
@@ -210,14 +224,21 @@ class C15(Prop):
                 "jdict": [["L", enc(np.eye(1)), "id"]], "jcoeffs": [["g", [1.0, 0.0]]],
                 "suffix": ["_ket", "_bra"], "hermitian": True, "seed": 0, "malformed": None}
 
-    def _gen_case(self, rng, malformed):
+    def _gen_case(self, rng, malformed, large=0):
         nprs = np.random.RandomState(rng.randrange(2 ** 31))
         while True:
+            if large:
+                nsites = rng.choice([1, 2, 3, 4, 4, 5, 6])
+                dims = [rng.choice([1, 2, 2, 2, 3, 4, 5]) for _ in range(nsites)]
+                if large // 2 < int(np.prod(dims)) <= large:
+                    break
+                continue
             nsites = rng.choice([1, 1, 2, 2, 3])
             dims = [rng.choice([1, 2, 2, 3]) for _ in range(nsites)]
             if int(np.prod(dims)) <= 9:
                 break
-        names = rng.choice([["s0", "s1", "s2"], ["node1", "node2", "node3"], ["q", "qq", "q_ket"]])
+        names = rng.choice([["s0", "s1", "s2", "s3", "s4", "s5"], ["node1", "node2", "node3", "node4", "node5", "node6"],
+                            ["q", "qq", "q_ket", "q_bra", "qqq", "q_"]])
         sites = [[names[i], dims[i]] for i in range(nsites)]
         hermitian = rng.random() < 0.7
         # --- Hamiltonian dictionary and terms
@@ -242,7 +263,7 @@ class C15(Prop):
         if rng.random() < 0.15:
             hcoeffs = hcoeffs[1:] + hcoeffs[:1]   # "1" not first in the caller's mapping
         hterms = []
-        for _ in range(rng.choice([0, 1, 2, 2, 3, 4])):
+        for _ in range(rng.choice([2, 4, 6, 8, 10]) if large else rng.choice([0, 1, 2, 2, 3, 4])):
             k = rng.randrange(1, nsites + 1)
             ss = rng.sample(range(nsites), k)
             tp = [[sites[s][0], rng.choice(by_dim[dims[s]])] for s in ss]
@@ -265,7 +286,7 @@ class C15(Prop):
         if not jcoeffs:
             jcoeffs.append(["gamma", [0.5, 0.0]])
         jops = []
-        for _ in range(rng.choice([0, 1, 1, 2, 2, 3])):
+        for _ in range(rng.choice([2, 3, 4, 5, 6, 8]) if large else rng.choice([0, 1, 1, 2, 2, 3])):
             k = rng.randrange(1, nsites + 1)
             ss = rng.sample(range(nsites), k)
             tp = [[sites[s][0], rng.choice(jby_dim[dims[s]])] for s in ss]
@@ -279,7 +300,7 @@ class C15(Prop):
         suffix = rng.choice([["_ket", "_bra"], ["_ket", "_bra"], ["_k", "_b"], ["K", "Bra"]])
         case = {"sites": sites, "hterms": hterms, "hconv": hconv, "hcoeffs": hcoeffs, "jops": jops, "jdict": jdict,
                 "jcoeffs": jcoeffs, "suffix": suffix, "hermitian": hermitian, "seed": rng.randrange(10 ** 6), "malformed": None,
-                "history": None}
+                "history": None, "large": bool(large), "dense": self._gen_dense(rng, len(jops))}
         if malformed:
             kind = rng.choice(["hlabel", "jlabel", "collision"])
             if kind == "hlabel":
@@ -305,6 +326,73 @@ class C15(Prop):
         elif rng.random() < 0.4:
             case["history"] = self._gen_history(rng, nprs, case)
         return case
+
+    DENSE_FORMATS = ["tuple", "negtuple", "split", "bare"]
+
+    @staticmethod
+    def _gen_dense(rng, njops):
+        """The format of the list handed to the dense construction exact_lindbladian(H, List[ndarray | tuple[float, ndarray]]):
+        every jump operator k with rate gamma_k is given in one of the documented entry formats
+          tuple    (c, L)      with c = sqrt(gamma)          rate c^2 = gamma
+          negtuple (-c, L)                                   rate (-c)^2 = gamma
+          split    (c/a, a L)  with a real scale a           rate (c/a)^2, operator a L: the same GKSL term
+          bare     c L         (no coefficient: rate 1)      needs gamma real >= 0; the array L itself if gamma = 1
+        and the entries are listed in a random order (the sum over k does not depend on it).  mode: all entries tuples,
+        all bare, or mixed formats."""
+        mode = rng.choice(["tuple", "bare", "mixed", "mixed", "mixed"])
+        fmts = []
+        for _ in range(njops):
+            f = mode if mode != "mixed" else rng.choice(C15.DENSE_FORMATS + ["bare", "tuple"])
+            fmts.append([f, rng.choice([0.5, 2.0, -2.0, 4.0]), rng.choice(["C", "C", "F"])])
+        order = list(range(njops))
+        if rng.random() < 0.7:
+            rng.shuffle(order)
+        return {"formats": fmts, "order": order}
+
+    @staticmethod
+    def _dense_list(dense, Ls, gammas):
+        """the list for exact_lindbladian in the format of case["dense"] and its description (effective formats in list order)"""
+        out, desc = [], []
+        for k in dense["order"]:
+            f, a, layout = dense["formats"][k]
+            L, g = Ls[k], complex(gammas[k])
+            c = np.sqrt(g)
+            c = float(c.real) if c.imag == 0 else c
+            if f == "bare" and not (g.imag == 0 and g.real >= 0):
+                f = "tuple"            # a bare entry has rate 1: a rate that is not real >= 0 cannot be absorbed into L
+            arr = np.asfortranarray if layout == "F" else np.ascontiguousarray
+            if f == "tuple":
+                out.append((c, arr(L)))
+            elif f == "negtuple":
+                out.append((-c, arr(L)))
+            elif f == "split":
+                out.append((c / a, arr(a * L)))
+            else:
+                out.append(arr(L) if g == 1 else arr(c * L))
+            desc.append(f"{f}[jump {k}, coefficient {out[-1][0] if isinstance(out[-1], tuple) else 'none'}]")
+        return out, desc
+
+    @staticmethod
+    def _gammas(case):
+        jco = {c[0]: cplx(c[1]) for c in case["jcoeffs"]}
+        return [(j["frac"][0] / j["frac"][1]) * (1 if j["bare"] else jco.get(j["coeff"], 1)) for j in case["jops"]]
+
+    @staticmethod
+    def _dense_plan(case):
+        """effective entry formats of the dense list, in list order: [(format, coefficient is +-1)]"""
+        dense = case.get("dense")
+        if not dense:
+            return []
+        gs = C15._gammas(case)
+        plan = []
+        for k in dense["order"]:
+            f, a, _ = dense["formats"][k]
+            g = complex(gs[k])
+            if f == "bare" and not (g.imag == 0 and g.real >= 0):
+                f = "tuple"
+            c = np.sqrt(g) / (a if f == "split" else 1)
+            plan.append((f, f == "bare" or c in (1, -1)))
+        return plan
 
     @staticmethod
     def _gen_history(rng, nprs, case):
@@ -360,6 +448,21 @@ class C15(Prop):
                 kinds = {l[0]: l[2] for l in x["jdict"]}
                 for s, l in j["tp"]:
                     c["jump factor:" + kinds.get(l, "?")] += 1
+            c["large member (1..6 sites of dimension 1..5 / total dimension 9..32 / up to 10 terms, 8 jump operators)"] += bool(x.get("large"))
+            if x.get("large"):
+                c["large: total dimension %d" % int(np.prod([d for _, d in x["sites"]]))] += 1
+            plan = self._dense_plan(x) if not x["malformed"] else []
+            if plan:
+                fs = {f for f, _ in plan}
+                c["dense list: " + ("all bare" if fs == {"bare"} else "all tuples" if "bare" not in fs else "bare and tuple entries mixed")] += 1
+                c["dense list: order permuted"] += x["dense"]["order"] != sorted(x["dense"]["order"])
+                for (fa, ua), (fb, ub) in zip(plan, plan[1:]):
+                    if fb == "bare" and fa != "bare":
+                        c["dense list: bare entry directly after a tuple with coefficient %s" % ("+-1" if ua else "not +-1")] += 1
+                    if fa == "bare" and fb != "bare":
+                        c["dense list: tuple entry directly after a bare entry"] += 1
+                for f, _ in plan:
+                    c["dense entry:" + f] += 1
             hist = x.get("history")
             if hist:
                 c["history: earlier sweep points on the same buffers:%d" % len(hist["points"])] += 1
@@ -444,6 +547,21 @@ class C15(Prop):
             ob["L_exact"] = exact_lindbladian(H, [(c, L) for c, L in zip(cs, Ls)])
         except Exception as e:  # noqa
             ob["exact_exception"] = f"{type(e).__name__}: {e}"
+            return
+        if case.get("dense") and not case["malformed"]:
+            # the same operators and rates in the list format of case["dense"] (mixed documented entry formats, list order)
+            try:
+                lst, desc = self._dense_list(case["dense"], Ls, gammas)
+                ob["fmt_desc"] = "[" + ", ".join(desc) + "]"
+                keep = [(x[0], x[1].copy()) if isinstance(x, tuple) else x.copy() for x in lst]
+                ob["L_exact_fmt"] = exact_lindbladian(H, lst)
+                same = len(lst) == len(keep) and all(
+                    (isinstance(x, tuple) and x[0] == y[0] and np.array_equal(x[1], y[1])) or
+                    (not isinstance(x, tuple) and not isinstance(y, tuple) and np.array_equal(x, y)) for x, y in zip(lst, keep))
+                if not same:
+                    ob["exact_exception"] = "exact_lindbladian modified the caller's list of jump operators " + ob["fmt_desc"]
+            except Exception as e:  # noqa
+                ob["exact_exception"] = f"{type(e).__name__}: {e} (list format {ob.get('fmt_desc')})"
 
     @staticmethod
     def _make_terms(case):
@@ -798,6 +916,8 @@ class C15(Prop):
             scale = float(np.max(np.abs(po["L_gen"]), initial=1.0))
             if not close(po["L_gen"], po["L_exact"], scale):
                 return prefix + "symbolic and dense constructions differ under rate = coefficient^2"
+            if "L_exact_fmt" in po and not close(po["L_gen"], po["L_exact_fmt"], scale):
+                return prefix + f"symbolic and dense constructions differ under rate = coefficient^2 (dense list {po['fmt_desc']})"
             # consequences, on the matrix of the code: trace and Hermiticity preservation
             d = self._evolution_check(po["L_gen"], pc, H, gammas)
             if d:
@@ -809,7 +929,10 @@ class C15(Prop):
         gksl, flipped, H, gammas = self._references(case)
         scale = float(np.max(np.abs(gksl), initial=1.0))
         flips = []
-        for name, key in (("generate_lindbladian", "L_gen"), ("exact_lindbladian", "L_exact")):
+        keys = [("generate_lindbladian", "L_gen"), ("exact_lindbladian", "L_exact")]
+        if "L_exact_fmt" in ob:
+            keys.append((f"exact_lindbladian on the list {ob['fmt_desc']}", "L_exact_fmt"))
+        for name, key in keys:
             m = ob[key]
             if close(m, gksl, scale):
                 continue
